@@ -154,7 +154,8 @@ def install_torn_writer() -> None:
         os._exit(87)
 
     def write_text(self, data, *a, **k):
-        TRACER._torn_target = None
+        if TRACER._torn_target is not None:
+            os._exit(88)  # the armed effect was not a data write (e.g. Path.touch): nothing to tear
         # let the audit hook see the open first
         with orig_open(self, "w") as f:
             if TRACER._torn_target is not None and os.path.realpath(str(self)) == os.path.realpath(TRACER._torn_target):
@@ -172,7 +173,8 @@ def install_torn_writer() -> None:
             _finish(self._path, self.getvalue())
 
     def popen(self, mode="r", *a, **k):
-        TRACER._torn_target = None
+        if TRACER._torn_target is not None:
+            os._exit(88)
         f = orig_open(self, mode, *a, **k)
         if "w" in mode and TRACER._torn_target is not None and os.path.realpath(str(self)) == os.path.realpath(TRACER._torn_target):
             f.close()
